@@ -373,6 +373,11 @@ def getitem(arr, key):
             lo = 0 if start is None else (start if _nonneg(start) else n + start)
             hi = n if stop is None else (stop if _nonneg(stop) else n + stop)
             # clamp (Python slice semantics) for concrete-decidable cases only
+            if isinstance(start, Sym) or isinstance(stop, Sym):
+                # symbolic bounds: no clamping is modelled, so 0 <= lo <= hi <= n is an obligation
+                cc = sym.ctx()
+                if not cc.spec_mode:
+                    cc.oblige_safe("slice-bounds", z3.And(lift(lo) >= 0, lift(lo) <= lift(hi), lift(hi) <= lift(n)))
             ln = hi - lo
             plan.append(("off", lo))
             shape.append(ln)
@@ -593,12 +598,24 @@ def _columns(a, axis):
     raise OutsideSubset("reduction axis %r of %d-d array" % (axis, a.ndim))
 
 
-def np_sum(a, axis=None):
+def np_sum(a, axis=None, keepdims=False):
     """np.sum == SUM(a, n) (trusted link to the specification function of pyvc.sumtheory)"""
     from . import sumtheory
     c = sym.ctx()
     if isinstance(a, Sym):
         return a
+    if keepdims:
+        if a.ndim != 2 or axis not in (0, 1, -1, -2):
+            raise OutsideSubset("sum(keepdims=True) of this shape / axis")
+        r = np_sum(a, axis)
+        g = r.fn
+        if axis in (1, -1):
+            return SArr((a.shape[0], 1), lambda i, j: g(i), "real")
+        return SArr((1, a.shape[1]), lambda i, j: g(j), "real")
+    if a.ndim == 2 and axis is None and not isinstance(a.shape[1], Sym) and a.shape[1] == 1:
+        return np_sum(a.ravel())
+    if a.ndim == 2 and axis is None and not isinstance(a.shape[0], Sym) and a.shape[0] == 1:
+        return np_sum(a.ravel())
     if a.ndim == 1 and axis in (None, 0, -1):
         if not isinstance(a.shape[0], Sym) and a.shape[0] <= 8:
             tot = 0
@@ -632,11 +649,11 @@ def np_max(a, axis=None):
 
 
 @model(np.sum)
-def _np_sum(interp, a, axis=None, **kw):
+def _np_sum(interp, a, axis=None, keepdims=False, **kw):
     if not deep_sym(a):
-        return np.sum(a, axis=axis, **kw)
+        return np.sum(a, axis=axis, keepdims=keepdims, **kw)
     interp.trusted_used.add("model:np.sum == SUM spec function")
-    return np_sum(to_sarr(a), axis)
+    return np_sum(to_sarr(a), axis, keepdims)
 
 
 @model(np.mean, np.nanmean)
@@ -650,7 +667,10 @@ def _np_mean(interp, a, axis=None, **kw):
 @model(np.where)
 def np_where(interp, c, a=None, b=None):
     if a is None:
-        raise OutsideSubset("np.where with one argument on symbolic data")
+        if not deep_sym(c):
+            return np.where(c)
+        from . import npmodels
+        return npmodels.np_where1(interp, c)
     return sym.elementwise(lambda cc, x, y: sym.ite(cc, x, y) if isinstance(cc, Sym) else (x if cc else y),
                            [c, a, b])
 
@@ -1562,9 +1582,12 @@ def np_diff(interp, a, *args, **kw):
 def np_cumsum(interp, a, *args, **kw):
     from . import sumtheory
     a = to_sarr(a)
-    c = interp.ctx
+    if a.ndim == 2 and (a.shape[1] == 1 if not isinstance(a.shape[1], Sym) else False):
+        a = a.ravel()
+    c = interp.ctx if interp is not None else sym.ctx()
     A = sumtheory.materialize(c, a)
-    interp.trusted_used.add("model:np.cumsum(a)[k] == SUM(a, k+1)")
+    if interp is not None:
+        interp.trusted_used.add("model:np.cumsum(a)[k] == SUM(a, k+1)")
     # defining recurrence of the running sum, for every position of this array
     q = z3.Int(c.fresh_name("q"))
     c.assume(z3.And(sumtheory.SUM(A, 0) == 0,
@@ -1997,3 +2020,6 @@ def posix_basename(interp, p):
         shape = p.concrete_shape("0")
         return p.slice(shape.rfind("/") + 1, None)
     return _posixpath.basename(p)
+
+
+from . import npmodels as _npmodels      # noqa: E402  (registers further NumPy models)
